@@ -16,7 +16,7 @@ PID = "C17"
 LEVEL = "translation_validation"
 ITEM_CAP = {"quick": 240, "thorough": 900}
 FUNCS = ["qlasskit.tools.py2bexp.{main,convert_to_bool_expression,convert_to_dimacs,output_result}", "qlasskit.tools.py2qasm.{main,convert_to_quasm}", "qlasskit.tools.utils.{parse_str,parse_file}", "qlasskit.tools.tools.find_last_qlassf"]
-BOUNDS = "27 function bodies (some declared through @qlassfa with uncompute=False / to_compile=False / the fast optimizer) (1-6 argument bits; single clause CNFs, constants, intermediates/CSE, multi-bit returns, tuples) arranged in scripts of 1-3 functions x forms {none,anf,cnf,dnf,nnf} x formats {sympy,dimacs} x entry point choices x qasm versions {2.0,3.0}; all argument bits symbolic; DIMACS numbering found by the solver (<= 6 variables)"
+BOUNDS = "30 function bodies (some declared through @qlassfa with uncompute=False / to_compile=False / the fast optimizer) (1-6 argument bits; single clause CNFs, constants, intermediates/CSE, multi-bit returns, tuples) arranged in scripts of 1-3 functions x forms {none,anf,cnf,dnf,nnf} x formats {sympy,dimacs} x entry point choices x qasm versions {2.0,3.0}; all argument bits symbolic; DIMACS numbering found by the solver (<= 6 variables)"
 OUTSIDE = "scripts enumerated; tools run in-process (sys.argv / stdout redirected) instead of through a `python` subprocess; tweedledum/recompiler back-ends of py2qasm; scripts with more than one function and no -e option (the statement promises nothing there)"
 ASSUMPTIONS = ["a small precedence parser for sympy's Boolean printer (~ > & > | > ^, as in sympy.printing.precedence)", "the DIMACS variable numbering is not printed: the check asks z3 for ANY bijection under which the clause set has the expression's satisfying assignments"]
 
@@ -48,9 +48,13 @@ BODIES = [
     ("i_mul", "a: Qint[3], b: Qint[3]", "bool", ["c = a * b", "return c > 3"]),
     ("i_sum3", "a: Qint[3], b: Qint[3]", "bool", ["c = a + b", "d = c + a", "return d == 3"]),
     ("i_eq3", "a: Qint[4], b: Qint[4]", "bool", ["return a + b == 3"]),
+    # fast optimizer: re-assigned locals / arguments keep several definitions of one symbol
+    ("f_reas", "a: bool, b: bool, c: bool", "bool", ["x = a and b", "y = x or c", "x = b ^ c", "return y and x"]),
+    ("f_arg", "a: bool, b: bool, c: bool", "bool", ["t = a or c", "a = b and c", "return t ^ a"]),
+    ("f_if", "a: bool, b: bool, c: bool", "Tuple[bool, bool]", ["x = a", "if c:", "    x = x ^ b", "y = x and a", "x = not x", "return (y, x)"]),
 ]
 # how the function object is created in the script (default: plain @qlassf)
-DECO = {"i_eq3": "@qlassfa(uncompute=False)", "i_sum3": "@qlassfa(to_compile=False)", "b_inter": "@qlassfa(uncompute=False)", "i_gt": "@qlassfa(bool_optimizer=fastOptimizer)"}
+DECO = {"i_eq3": "@qlassfa(uncompute=False)", "i_sum3": "@qlassfa(to_compile=False)", "b_inter": "@qlassfa(uncompute=False)", "i_gt": "@qlassfa(bool_optimizer=fastOptimizer)", "f_reas": "@qlassfa(bool_optimizer=fastOptimizer)", "f_arg": "@qlassfa(bool_optimizer=fastOptimizer)", "f_if": "@qlassfa(bool_optimizer=fastOptimizer)"}
 FORMS = [None, "anf", "cnf", "dnf", "nnf"]
 
 
